@@ -157,6 +157,7 @@ bool approxEq(double a, double b) {
     if (std::memcmp(&a, &b, 8) == 0) return true;
     if (std::isnan(a) || std::isnan(b)) return std::isnan(a) && std::isnan(b);
     if (a == b) return true;
+    if (std::isinf(a) || std::isinf(b)) return false;
     char ba[64], bb[64];
     std::snprintf(ba, sizeof ba, "%.10g", a); std::snprintf(bb, sizeof bb, "%.10g", b);
     if (std::strcmp(ba, bb) == 0) return true;
@@ -213,7 +214,7 @@ Diff diffDeck(const DeckC& a, const DeckC& b, bool approx) {
                     case type_tag::fdouble:
                         if (v < ia.dv.size()) {
                             bool eq = approx ? approxEq(ia.dv[v], ib.dv[v]) : std::memcmp(&ia.dv[v], &ib.dv[v], 8) == 0;
-                            if (!eq) { set("double", k, ka.name, pv + " a=" + vh::hexF64(ia.dv[v]) + " b=" + vh::hexF64(ib.dv[v])); return d; }
+                            if (!eq) { set(approx && std::isinf(ib.dv[v]) && !std::isinf(ia.dv[v]) ? "double_overflow" : "double", k, ka.name, pv + " a=" + vh::hexF64(ia.dv[v]) + " b=" + vh::hexF64(ib.dv[v])); return d; }
                         }
                         break;
                     case type_tag::uda:
@@ -221,7 +222,7 @@ Diff diffDeck(const DeckC& a, const DeckC& b, bool approx) {
                             if (ia.num[v] != ib.num[v]) { set("uda", k, ka.name, pv + " numeric a=" + std::to_string(ia.num[v]) + " b=" + std::to_string(ib.num[v])); return d; }
                             if (ia.num[v]) {
                                 bool eq = approx ? approxEq(ia.dv[v], ib.dv[v]) : std::memcmp(&ia.dv[v], &ib.dv[v], 8) == 0;
-                                if (!eq) { set("uda", k, ka.name, pv + " a=" + vh::hexF64(ia.dv[v]) + " b=" + vh::hexF64(ib.dv[v])); return d; }
+                                if (!eq) { set(approx && std::isinf(ib.dv[v]) && !std::isinf(ia.dv[v]) ? "double_overflow" : "uda", k, ka.name, pv + " a=" + vh::hexF64(ia.dv[v]) + " b=" + vh::hexF64(ib.dv[v])); return d; }
                             } else if (ia.sv[v] != ib.sv[v]) { set("uda", k, ka.name, pv + " a=" + vh::hex(ia.sv[v]) + " b=" + vh::hex(ib.sv[v])); return d; }
                         }
                         break;
@@ -459,7 +460,9 @@ struct Gen {
     }
     std::string genDouble() {
         static const std::vector<std::string> fixed = { "1", "1.0", ".5", "1e3", "1.5E-3", "1.0D+2", "-0.0", "1e300", "5.", "+3.5", "1d-5", "0", "123456789.123456789",
-            "1e-300", "0.1", "-2.5e+10", "3.14159265358979", "1E0", "2.5D0", "-.25", "1e-5", "0.30000000000000004", "4.9e-324", "1.7976931348623157e308", "100", "-7" };
+            "1e-300", "0.1", "-2.5e+10", "3.14159265358979", "1E0", "2.5D0", "-.25", "1e-5", "0.30000000000000004", "1.5e308", "100", "-7" };
+        static const std::vector<std::string> rare = { "4.9e-324", "1.7976931348623157e308", "2.2250738585072014e-308", "-1.7976931348623157E+308", "1e-320" };
+        if (rng.coin(1, 500)) return rng.pick(rare);
         if (rng.coin(1, 2)) return rng.pick(fixed);
         std::string s;
         if (rng.coin(1, 5)) s += "-";
@@ -625,7 +628,13 @@ struct Gen {
             if (pk.isTableCollection()) {
                 for (int t = 0; t < N; ++t) {
                     int k = rng.range(1, 3);
-                    for (int i = 0; i < k; ++i) addRec(0);
+                    for (int i = 0; i < k; ++i) {
+                        addRec(0);
+                        // a record without an explicit value is what the Deck also holds for the table separator: keep RS explicit
+                        Line& rl = b.lines.back();
+                        long cc; std::string vv;
+                        if (!rl.toks.empty() && rl.toks[0].kind == 'V' && (starSplit(rl.toks[0].text, cc, vv) && vv.empty())) rl.toks[0].text = genDouble();
+                    }
                     b.lines.push_back(slashLine()); rec++;
                 }
             } else {
@@ -679,7 +688,14 @@ struct Gen {
         Line e; e.kind = 'x'; e.glue = true; e.name = pk.codeEnd(); b.lines.push_back(e);
         rep.count("gen.class.CODE");
         present.insert(name);
-        out.push_back(std::move(b));
+        out.push_back(b);
+        // now and then a second code keyword directly behind the first one
+        if (rng.coin(1, 3)) {
+            Block c2 = b;
+            for (size_t i = 1; i + 1 < c2.lines.size(); ++i) c2.lines[i].name = rng.pick(code);
+            rep.count("gen.class.CODE"); rep.count("gen.code_keyword_pairs");
+            out.push_back(std::move(c2));
+        }
         return true;
     }
     Line rawLine(const std::vector<std::string>& toks, int rec) {
@@ -854,8 +870,6 @@ long itemCount(const std::vector<const Tok*>& toks) {
     return n;
 }
 
-struct RwCtx { int caseNo = 0; };
-
 // returns the number of modifications
 int applyRewrite(int kind, std::vector<Block>& deck, vh::Rng& rng) {
     std::vector<Site> sites;
@@ -869,14 +883,25 @@ int applyRewrite(int kind, std::vector<Block>& deck, vh::Rng& rng) {
         size_t n = howMany(rng, pos.size());
         shuffle(rng, pos);
         pos.resize(n);
-        // insert from the back so that indices stay valid
-        std::sort(pos.begin(), pos.end(), [](const Site& a, const Site& b) { return a.b != b.b ? a.b > b.b : a.li > b.li; });
-        for (auto& s : pos) {
-            Line l;
-            if (kind == RW_COMMENT_LINE) { l.kind = 'c'; l.name = randomWs(rng, true) + randomComment(rng); }
-            else { l.kind = 'b'; l.name = randomWs(rng, true); }
-            s.b->lines.insert(s.b->lines.begin() + (long) s.li, l);
-            ++done;
+        // one rebuild per block (insertion positions refer to the old indices)
+        std::map<Block*, std::vector<size_t>> byBlock;
+        for (auto& s : pos) byBlock[s.b].push_back(s.li);
+        for (auto& kv : byBlock) {
+            auto& at = kv.second;
+            std::sort(at.begin(), at.end());
+            std::vector<Line> nl;
+            nl.reserve(kv.first->lines.size() + at.size());
+            size_t ai = 0;
+            for (size_t i = 0; i < kv.first->lines.size(); ++i) {
+                while (ai < at.size() && at[ai] == i) {
+                    Line l;
+                    if (kind == RW_COMMENT_LINE) { l.kind = 'c'; l.name = randomWs(rng, true) + randomComment(rng); }
+                    else { l.kind = 'b'; l.name = randomWs(rng, true); }
+                    nl.push_back(std::move(l)); ++ai; ++done;
+                }
+                nl.push_back(std::move(kv.first->lines[i]));
+            }
+            kv.first->lines = std::move(nl);
         }
     } break;
     case RW_COMMENT_APPEND: {
@@ -966,23 +991,31 @@ int applyRewrite(int kind, std::vector<Block>& deck, vh::Rng& rng) {
         size_t n = howMany(rng, pos.size());
         shuffle(rng, pos);
         pos.resize(n);
-        std::sort(pos.begin(), pos.end(), [](const Site& a, const Site& b) { return a.b != b.b ? a.b > b.b : a.li > b.li; });
-        for (auto& s : pos) {
-            Line& l = s.b->lines[s.li];
-            std::vector<size_t> at;
-            for (size_t t = 1; t < l.toks.size(); ++t)
-                if (l.toks[t].kind == 'R' || (l.toks[t].kind == 'V' && breakableBefore(l.toks[t].text))) at.push_back(t);
-            if (at.empty()) continue;
-            size_t t = rng.pick(at);
-            Line nl = l;
-            nl.toks.assign(l.toks.begin() + (long) t, l.toks.end());
-            nl.toks[0].sep = "";
-            nl.lead = randomWs(rng, true);
-            nl.glue = false;
-            l.toks.resize(t);
-            l.tail = rng.coin(1, 4) ? " " : "";
-            s.b->lines.insert(s.b->lines.begin() + (long) s.li + 1, nl);
-            ++done;
+        std::map<Block*, std::set<size_t>> byBlock;
+        for (auto& s : pos) byBlock[s.b].insert(s.li);
+        for (auto& kv : byBlock) {
+            std::vector<Line> out;
+            out.reserve(kv.first->lines.size() + kv.second.size());
+            for (size_t i = 0; i < kv.first->lines.size(); ++i) {
+                Line& l = kv.first->lines[i];
+                if (!kv.second.count(i)) { out.push_back(std::move(l)); continue; }
+                std::vector<size_t> at;
+                for (size_t t = 1; t < l.toks.size(); ++t)
+                    if (l.toks[t].kind == 'R' || (l.toks[t].kind == 'V' && breakableBefore(l.toks[t].text))) at.push_back(t);
+                if (at.empty()) { out.push_back(std::move(l)); continue; }
+                size_t t = rng.pick(at);
+                Line nl = l;
+                nl.toks.assign(l.toks.begin() + (long) t, l.toks.end());
+                nl.toks[0].sep = "";
+                nl.lead = randomWs(rng, true);
+                nl.glue = false;
+                l.toks.resize(t);
+                l.tail = rng.coin(1, 4) ? " " : "";
+                out.push_back(std::move(l));
+                out.push_back(std::move(nl));
+                ++done;
+            }
+            kv.first->lines = std::move(out);
         }
     } break;
     case RW_JOIN: {
@@ -1001,20 +1034,27 @@ int applyRewrite(int kind, std::vector<Block>& deck, vh::Rng& rng) {
         size_t n = howMany(rng, pairs.size());
         shuffle(rng, pairs);
         pairs.resize(n);
-        std::sort(pairs.begin(), pairs.end(), [](const auto& a, const auto& b) { return a.first.b != b.first.b ? a.first.b > b.first.b : a.first.li > b.first.li; });
-        // joined lines must not overlap: process from the back, skip a pair whose B was consumed
-        Block* lastB = nullptr; size_t lastA = 0;
-        for (auto& p : pairs) {
-            Block* bl = p.first.b;
-            if (bl == lastB && p.second >= lastA) continue;
-            Line& a = bl->lines[p.first.li];
-            Line& b = bl->lines[p.second];
-            b.toks[0].sep = randomWs(rng, false);
-            a.toks.insert(a.toks.end(), b.toks.begin(), b.toks.end());
-            a.tail = b.tail;
-            bl->lines.erase(bl->lines.begin() + (long) p.second);
-            lastB = bl; lastA = p.first.li;
-            ++done;
+        std::map<Block*, std::map<size_t, size_t>> byBlock;     // A -> B
+        for (auto& p : pairs) byBlock[p.first.b][p.first.li] = p.second;
+        for (auto& kv : byBlock) {
+            auto& lines = kv.first->lines;
+            std::vector<char> dead(lines.size(), 0);
+            std::vector<char> used(lines.size(), 0);   // a line takes part in at most one join
+            for (auto& ab : kv.second) {
+                size_t ai = ab.first, bi = ab.second;
+                if (used[ai] || used[bi]) continue;
+                used[ai] = used[bi] = 1;
+                Line& a = lines[ai]; Line& b = lines[bi];
+                b.toks[0].sep = randomWs(rng, false);
+                a.toks.insert(a.toks.end(), b.toks.begin(), b.toks.end());
+                a.tail = b.tail;
+                dead[bi] = 1;
+                ++done;
+            }
+            std::vector<Line> out;
+            out.reserve(lines.size());
+            for (size_t i = 0; i < lines.size(); ++i) if (!dead[i]) out.push_back(std::move(lines[i]));
+            lines = std::move(out);
         }
     } break;
     case RW_AFTER_SLASH: {
@@ -1425,6 +1465,11 @@ struct Env {
     bool timeLeft(double frac = 1.0) const { return nowSec() - t0 < budget * frac; }
 };
 
+// consecutive vh::Rng seeds give shifted copies of one stream: decorrelate the per case seeds
+uint64_t caseSeed(uint64_t seed, uint64_t c) {
+    return vh::Rng(seed * 0x2545F4914F6CDD1Dull + c * 0xD1342543DE82EF95ull + 0x632BE59BD9B4E019ull).next();
+}
+
 struct Ref {            // reference side of a comparison
     bool ok = false, guard = false;
     DeckC canon;
@@ -1495,14 +1540,14 @@ void checkComposition(Reporter& rep, const Env& env, const std::string& src, con
         for (size_t n = 1; n <= steps.size() && !found; ++n) {
             std::vector<Step> pre(steps.begin(), steps.begin() + (long) n);
             CmpResult q = runRewritten(orig, A, pre, env, prefix + "p");
-            if (q.fail) { kind = std::string(rwName(steps[n - 1].kind)) + ".composed"; minimal = pre; mr = q; found = true; }
+            if (q.fail) { kind = rwName(steps[n - 1].kind); minimal = pre; mr = q; found = true; }   // fails only in composition: named after the last step of the shortest failing prefix
         }
     }
     if (steps.size() == 1) kind = rwName(steps[0].kind);
     if (steps.empty()) kind = "identity";
-    std::string extra;
-    if (mr.diff.differ) extra = "kwclass=" + classOfName(mr.diff.kwName) + " keyword=" + mr.diff.kwName;
-    rep.fail("C01.relayout." + src + "." + kind + "." + (mr.cls == "differs" ? "differs" : mr.cls), failDetail(env, src, id, minimal, mr, A, origText, extra + " full_rewrites=[" + stepsText(steps) + "]"));
+    std::string extra, keyCls;
+    if (mr.diff.differ) { keyCls = "." + classOfName(mr.diff.kwName); extra = "kwclass=" + classOfName(mr.diff.kwName) + " keyword=" + mr.diff.kwName; }
+    rep.fail("C01.relayout." + src + "." + kind + "." + mr.cls + keyCls, failDetail(env, src, id, minimal, mr, A, origText, extra + " full_rewrites=[" + stepsText(steps) + "]"));
 }
 
 std::vector<std::string> shippedDecks(const Env& env, Reporter& rep) {
@@ -1553,7 +1598,7 @@ void prop01(Reporter& rep, Env& env) {
     const int nGen = env.thorough ? 12000 : 1200;
     for (int c = 0; c < nGen; ++c) {
         if (!env.timeLeft(0.6)) { rep.count("generated.stopped_by_budget"); break; }
-        vh::Rng rng(env.seed * 1000003ull + (uint64_t) c);
+        vh::Rng rng(caseSeed(env.seed, (uint64_t) c));
         std::string fault;
         std::vector<Block> blocks = genDeck(rng, rep, rng.range(2, 14), true, fault);
         RenderCtx rc; std::string text;
@@ -1570,6 +1615,7 @@ void prop01(Reporter& rep, Env& env) {
             checkComposition(rep, env, "generated", "case" + std::to_string(c) + "." + std::to_string(k), blocks, A, text, steps, "g" + std::to_string(c) + "_");
         }
     }
+    rep.count("generated_ms", (long) ((nowSec() - env.t0) * 1000));
     // (c) shipped decks
     auto decks = shippedDecks(env, rep);
     for (const auto& path : decks) {
@@ -1606,10 +1652,13 @@ void prop01(Reporter& rep, Env& env) {
         { long nk = 0, nd = 0, nx = 0; std::vector<Site> ss; collectSites(blocks, ss); for (auto& s : ss) { char k = s.b->lines[s.li].kind; if (k == 'k') ++nk; else if (k == 'd') ++nd; else if (k == 'x') ++nx; }
           rep.count("shipped.lines.keyword", nk); rep.count("shipped.lines.data", nd); rep.count("shipped.lines.verbatim", nx); }
         uint64_t h = 1469598103934665603ull; for (unsigned char ch : id) { h ^= ch; h *= 1099511628211ull; }
-        vh::Rng rng(env.seed * 7919ull + h % 1000003ull);
+        vh::Rng rng(caseSeed(env.seed, h));
         // identity: parseString of the unchanged text (INCLUDE paths absolute) against parseFile
         checkComposition(rep, env, "shipped", id + "#identity", blocks, A, "", {}, "s_");
-        const int trials = env.thorough ? 8 : 3;
+        std::error_code fec;
+        const auto fsize = fs::file_size(path, fec);
+        const bool big = !fec && fsize > 300000;
+        const int trials = env.thorough ? (big ? 4 : 8) : (big ? 2 : 3);
         for (int k = 0; k < trials; ++k) {
             if (!env.timeLeft(0.97)) break;
             std::vector<Step> steps = randomSteps(rng, shippedKinds(), k == 0 ? 1 : 6);
@@ -1632,7 +1681,46 @@ const std::set<std::string>& contextNames() {
     return s;
 }
 
-struct C19Result { bool fail = false; std::string stage, what, where, kwName, t1; };
+struct C19Result { bool fail = false; std::string stage, what, where, kwName, t1; size_t kwIndex = 0; };
+
+// features of a keyword that are known to matter for the printer; named in the FAIL key
+std::string causeTag(const Deck& sub) {
+    if (sub.size() == 0) return "";
+    const DeckKeyword& kw = sub[sub.size() - 1];
+    const ParserKeyword* pk = nullptr;
+    try { pk = &P().getParserKeywordFromDeckName(kw.name()); } catch (...) {}
+    if (kw.name() == "TITLE") {
+        size_t pi = sub.size() - 1;
+        while (pi > 0 && sub[pi - 1].size() == 0) --pi;
+        if (pi > 0) {
+            const DeckKeyword& prev = sub[pi - 1];
+            if (prev.size() > 0) {
+                const DeckRecord& r = prev.getRecord(prev.size() - 1);
+                if (r.size() > 0) { const DeckItem& it = r.getItem(r.size() - 1); if (it.data_size() > 0 && it.defaultApplied(it.data_size() - 1)) return ".after_pending_default"; }
+            }
+        }
+        return "";
+    }
+    bool tagA = false, tagB = false;
+    size_t schemaIdx = 0;
+    for (size_t ri = 0; ri < kw.size(); ++ri) {
+        const DeckRecord& r = kw.getRecord(ri);
+        if (r.size() == 0) { schemaIdx = 0; continue; }
+        bool any = false;
+        for (const auto& it : r) for (auto st : it.getValueStatus()) if (st == value::status::deck_value) any = true;
+        if (!any && !(pk && pk->isTableCollection())) tagA = true;
+        const DeckItem& last = r.getItem(r.size() - 1);
+        bool isAll = false;
+        if (pk && std::distance(pk->begin(), pk->end()) > 0) {
+            try { const ParserRecord& pr = pk->getRecord(schemaIdx); if (pr.size() == r.size()) isAll = pr.get(pr.size() - 1).sizeType() == ParserItem::item_size::ALL; } catch (...) {}
+        }
+        if (isAll && last.data_size() > 0 && last.defaultApplied(last.data_size() - 1)) tagB = true;
+        ++schemaIdx;
+    }
+    if (tagA) return ".alldefault_record";
+    if (tagB) return ".all_item_trailing_default";
+    return "";
+}
 
 C19Result c19Once(const Deck& d) {
     C19Result r;
@@ -1645,7 +1733,7 @@ C19Result c19Once(const Deck& d) {
     const bool p2 = printDeck(*B.deck, t2);
     DeckC ca = canonDeck(d), cb = canonDeck(*B.deck);
     Diff df = diffDeck(ca, cb, true);
-    if (df.differ) { r.fail = true; r.stage = "roundtrip"; r.what = df.what; r.where = df.where; r.kwName = df.kwName; return r; }
+    if (df.differ) { r.fail = true; r.stage = "roundtrip"; r.what = df.what; r.where = df.where; r.kwName = df.kwName; r.kwIndex = df.kwIndex; return r; }
     if (!p2) { r.fail = true; r.stage = "fixpoint"; r.what = "print_err"; return r; }
     if (t2 != t1) {
         r.fail = true; r.stage = "fixpoint"; r.what = "text";
@@ -1660,13 +1748,15 @@ C19Result c19Once(const Deck& d) {
 // keyword i together with the keywords before it that size / scale it
 Deck subDeck(const Deck& d, size_t i) {
     Deck s;
-    for (size_t j = 0; j < i; ++j) if (contextNames().count(d[j].name())) s.addKeyword(d[j]);
+    std::set<std::string> need;
+    try { for (const auto& r : P().getParserKeywordFromDeckName(d[i].name()).requiredKeywords()) need.insert(r); } catch (...) {}
+    for (size_t j = 0; j < i; ++j) if (contextNames().count(d[j].name()) || need.count(d[j].name())) s.addKeyword(d[j]);
     s.addKeyword(d[i]);
     return s;
 }
 
-void c19Report(Reporter& rep, const Env& env, const std::string& src, const std::string& id, const std::string& cls, const std::string& kw, const C19Result& r, const std::string& origText) {
-    std::string key = "C19." + r.stage + "." + src + "." + cls + "." + r.what;
+void c19Report(Reporter& rep, const Env& env, const std::string& src, const std::string& id, const std::string& cls, const std::string& kw, const C19Result& r, const std::string& origText, const std::string& tag = "") {
+    std::string key = "C19." + r.stage + "." + src + "." + (r.what == "double_overflow" ? std::string("ANY") : cls) + "." + r.what + (r.what == "double_overflow" ? std::string() : tag);
     std::ostringstream o;
     o << "seed=" << env.seed << " tier=" << (env.thorough ? "thorough" : "quick") << " src=" << src << " id=" << id << " keyword=" << kw << " class=" << cls << " stage=" << r.stage << " what=" << r.what;
     if (!r.where.empty()) o << " where={" << r.where << "}";
@@ -1685,15 +1775,21 @@ void c19Deck(Reporter& rep, const Env& env, const std::string& src, const std::s
         for (size_t i = 0; i < d.size(); ++i) {
             const std::string nm = d[i].name();
             if (!perKeyword && i > 4000) break;
-            C19Result r;
-            try { Deck s = subDeck(d, i); r = c19Once(s); } catch (...) { r.fail = true; r.stage = "harness"; r.what = "subdeck_exception"; }
+            C19Result r; std::string tag;
+            try { Deck s = subDeck(d, i); r = c19Once(s); if (r.fail) tag = causeTag(s); } catch (...) { r.fail = true; r.stage = "harness"; r.what = "subdeck_exception"; }
             const std::string cls = classOfName(nm);
             if (perKeyword) rep.count("c19.keyword." + cls);
-            if (r.fail) { c19Report(rep, env, src, id + "#kw" + std::to_string(i), cls, nm, r, perKeyword ? "" : ""); attributed = true; }
+            if (r.fail) { c19Report(rep, env, src, id + "#kw" + std::to_string(i), cls, nm, r, "", tag); attributed = true; }
             else if (perKeyword) rep.ok();
         }
     }
-    if (whole.fail && !attributed) c19Report(rep, env, src, id, whole.kwName.empty() ? "DECK" : classOfName(whole.kwName), whole.kwName.empty() ? "-" : whole.kwName, whole, origText);
+    if (whole.fail && !attributed) {
+        std::string tag;
+        if (!whole.kwName.empty() && whole.kwIndex < d.size()) {
+            try { Deck two; size_t pi = whole.kwIndex; while (pi > 0 && d[pi - 1].size() == 0) --pi; if (pi > 0) two.addKeyword(d[pi - 1]); two.addKeyword(d[whole.kwIndex]); tag = causeTag(two); } catch (...) {}
+        }
+        c19Report(rep, env, src, id, whole.kwName.empty() ? "DECK" : classOfName(whole.kwName), whole.kwName.empty() ? "-" : whole.kwName, whole, origText, tag);
+    }
     else if (whole.fail) { rep.log.ok(); ++rep.log.failed; rep.count("c19." + src + ".deck_fail_attributed"); }
     else rep.ok();
 }
@@ -1702,7 +1798,7 @@ void prop19(Reporter& rep, Env& env) {
     const int nGen = env.thorough ? 8000 : 800;
     for (int c = 0; c < nGen; ++c) {
         if (!env.timeLeft(0.6)) { rep.count("generated.stopped_by_budget"); break; }
-        vh::Rng rng(env.seed * 1000003ull + (uint64_t) c);
+        vh::Rng rng(caseSeed(env.seed, (uint64_t) c));
         std::string fault;
         std::vector<Block> blocks = genDeck(rng, rep, rng.range(2, 12), false, fault);
         RenderCtx rc; std::string text;
